@@ -25,3 +25,10 @@ shutil.rmtree('/verif/evidence')
 shutil.copytree('/tmp/evidence_backup', '/verif/evidence')   # evidence files must come from runs on the unchanged tree
 for r in rows:
     print(' | '.join(r))
+if not sys.argv[1:]:
+    # full run: keep the table (DESIGN.md 0A.5 quotes it)
+    with open('/verif/seeded/RESULTS.md', 'w') as f:
+        f.write('| seeded change | property | verdict of `bin/check <property>` | failed obligations (replay files) |\n|---|---|---|---|\n')
+        for sid, pid, verdict, obl in rows:
+            summ = json.load(open('/verif/seeded/%s/meta.json' % sid)).get('summary', '')[:0]
+            f.write('| %s | %s | %s | %s |\n' % (sid, pid, verdict, obl.replace('|', '/')))
